@@ -12,6 +12,8 @@ def run(P, R, L):
     R.clause("PAIR-11", "the loader of a two-level iterator re-uses the child iterator (cursor included) when the block / file is unchanged, so "
              "after every successful init_data_block / set_table_iter the child is positioned explicitly in the method's direction")
     K.pair11_loaded_child_positioned(P, R, L)
+    R.clause("KEY-1", "InternalKey order: user key ascending, then sequence number descending (newest first); the sequence only breaks ties")
+    K.key1_internal_key_order(P, R, L)
     R.clause("PAIR-8", "a change of direction repositions the underlying iterator before the search for the next visible entry (DatabaseIterator), "
              "and the merging iterator steps its current child before choosing and re-seeks the others")
     K.pair8_reversal(P, R, L)
